@@ -107,6 +107,12 @@ class PlugImpl(object):
     def fail(self, msg, finding=None):
         self.fails.append((self.opi, msg, finding))
 
+    def mark_regrid(self):
+        """the plugin instance was (re)created: _restoreEvents re-derives every repeating event's next run from its grid"""
+        for o in self.repeat.values():
+            if o['removed'] is None:
+                o['regrid'] = self.clk.t
+
     def check_grid(self):
         """a repeating event is meant to run at first_run + k * period (that is what _restoreEvents
         re-establishes); the periodic wrapper re-schedules from the moment it ran (finding C18-repeat-drifts)"""
@@ -237,7 +243,21 @@ class PlugImpl(object):
                 if o['removed'] is not None:
                     self.fail('the repeating command c%d ran at %d although it was removed at %d' % (c, now, o['removed']))
                 if o['fired'] and now - o['fired'][-1] < o['period']:
-                    self.fail('the repeating command c%d (every %d s) ran at %d and again at %d' % (c, o['period'], o['fired'][-1], now))
+                    # Two runs closer than the period.  While the plugin stays loaded the wrapper re-schedules from
+                    # the moment it ran, so this cannot happen.  After a (re)load or restart _restoreEvents puts the
+                    # event back on its grid first_run + k * period: a run that was late (finding C18-repeat-drifts)
+                    # followed by the next grid point is then legitimately closer than the period -- provided a grid
+                    # point lies strictly after the previous run and not after this one (a second run for the SAME
+                    # occurrence, e.g. a reload that runs the command at once, is still a failure).
+                    prev = o['fired'][-1]
+                    ok_grid = False
+                    if o.get('regrid') is not None and o['regrid'] >= prev:
+                        g = o['grid0'] + ((now - o['grid0']) // o['period']) * o['period']
+                        ok_grid = prev < g <= now
+                        if ok_grid:
+                            self.tags.add('p-repeat-regridded-short-interval')
+                    if not ok_grid:
+                        self.fail('the repeating command c%d (every %d s) ran at %d and again at %d' % (c, o['period'], prev, now))
                 o['fired'].append(now)
                 self.tags.add('p-repeat-ran')
             else:
@@ -302,7 +322,7 @@ class PlugImpl(object):
             r = L.say('scheduler repeat %s%s %d echo c%d' % ('--delay %d ' % delay if delay else '', name, period, c))
             reply = classify(r)
             if reply == 'silent':
-                self.repeat[c] = {'period': period, 'fired': [], 'removed': None, 'key': name, 'first': self.clk.t + delay}
+                self.repeat[c] = {'period': period, 'fired': [], 'removed': None, 'key': name, 'first': self.clk.t + delay, 'grid0': self.clk.t + delay, 'regrid': None}
                 self.byid[name] = c
                 self.tags.add('p-repeat')
         elif k == 'plist':
@@ -331,6 +351,8 @@ class PlugImpl(object):
             r = L.say('%s Scheduler' % k[1:])
             reply = classify(r)
             self.note_instance()
+            if k in ('pload', 'preload'):
+                self.mark_regrid()
             self.tags.add('p-' + k[1:] + ('' if reply == 'ok' else '-refused'))
         elif k == 'prestart':
             if loaded:
@@ -339,6 +361,7 @@ class PlugImpl(object):
             r = L.say('load Scheduler')
             reply = classify(r)
             self.note_instance()
+            self.mark_regrid()
             self.tags.add('p-restart')
         elif k == 'pforeign':
             def ff(): pass
